@@ -429,7 +429,7 @@ Section WithV.
   Theorem diagonal_src_correct (x : coo) (offset : Z) (a1 a2 : nat) :
     cwf x -> a1 <> a2 -> (a1 < length (c_shape x))%nat -> (a2 < length (c_shape x))%nat ->
     nth a1 (c_shape x) 0 = nth a2 (c_shape x) 0 ->
-    exists c, coo_diagonal_src V veqb vzero vadd x offset (Z.of_nat a1) (Z.of_nat a2) = Ok c
+    exists c, coo_diagonal_core V veqb vzero vadd diagonal_flags x offset (Z.of_nat a1) (Z.of_nat a2) = Ok c
       /\ canonical c
       /\ c_shape c = da_shape (np_diagonal offset a1 a2 (darr_of_coo x))
       /\ c_fill c = c_fill x
@@ -439,8 +439,7 @@ Section WithV.
     intros [[Hr [Hss Hl]] Hok] Hne H1 H2 Hsq.
     set (sh := c_shape x) in *. set (N := nth a1 sh 0) in *.
     set (pos := pos_of a1 a2 offset).
-    unfold coo_diagonal_src, coo_diagonal. fold sh.
-    unfold site_diagonal_checks_zero_fill. cbn [andb].
+    unfold coo_diagonal_core. fold sh.
     rewrite (py_index_nat sh a1 H1), (py_index_nat sh a2 H2). cbn [bind]. fold N. rewrite <- Hsq. fold N.
     rewrite diag_guard_spec. cbn [bind].
     rewrite (filter_ext _ _ (fun ax => other_axis_spec ax (Z.of_nat a1) (Z.of_nat a2))).
@@ -525,14 +524,41 @@ Section WithV.
         * intros ->. exact Hb1.
   Qed.
 
+  (* the wrapper: axis normalisation and the equal-axes guard, then the body *)
+  Lemma diagonal_src_unfold (x : coo) (offset axis1 axis2 : Z) (a1 a2 : nat) :
+    np_norm_axis axis1 (ndim_of V x) = Some a1 -> np_norm_axis axis2 (ndim_of V x) = Some a2 -> a1 <> a2 ->
+    coo_diagonal_src V veqb vzero vadd x offset axis1 axis2
+    = coo_diagonal_core V veqb vzero vadd diagonal_flags x offset (Z.of_nat a1) (Z.of_nat a2).
+  Proof.
+    intros Hn1 Hn2 Hne. unfold coo_diagonal_src, coo_diagonal.
+    unfold site_diagonal_checks_zero_fill. cbn [andb].
+    destruct (norm_axis_spec site_diagonal_axis_ndim axis1 _ _ a1 eq_refl Hn1) as [E1 _].
+    destruct (norm_axis_spec site_diagonal_axis_ndim axis2 _ _ a2 eq_refl Hn2) as [E2 _].
+    rewrite E1, E2. cbn [bind].
+    unfold site_diagonal_same_axis_guard. cbn.
+    destruct (Z.eqb_spec (Z.of_nat a1) (Z.of_nat a2)); [lia|]. reflexivity.
+  Qed.
+
+  (* equal axes: ValueError, like NumPy *)
+  Lemma diagonal_src_same_axis (x : coo) (offset axis1 axis2 : Z) (a : nat) :
+    np_norm_axis axis1 (ndim_of V x) = Some a -> np_norm_axis axis2 (ndim_of V x) = Some a ->
+    coo_diagonal_src V veqb vzero vadd x offset axis1 axis2 = Raise ValueError.
+  Proof.
+    intros Hn1 Hn2. unfold coo_diagonal_src, coo_diagonal.
+    unfold site_diagonal_checks_zero_fill. cbn [andb].
+    destruct (norm_axis_spec site_diagonal_axis_ndim axis1 _ _ a eq_refl Hn1) as [E1 _].
+    destruct (norm_axis_spec site_diagonal_axis_ndim axis2 _ _ a eq_refl Hn2) as [E2 _].
+    rewrite E1, E2. cbn [bind].
+    unfold site_diagonal_same_axis_guard. cbn. rewrite Z.eqb_refl. reflexivity.
+  Qed.
+
   (* extents of the two axes differ: the documented ValueError *)
-  Lemma diagonal_src_nonsquare (x : coo) (offset : Z) (a1 a2 : nat) :
+  Lemma diagonal_core_nonsquare (x : coo) (offset : Z) (a1 a2 : nat) :
     (a1 < length (c_shape x))%nat -> (a2 < length (c_shape x))%nat ->
     nth a1 (c_shape x) 0 <> nth a2 (c_shape x) 0 ->
-    coo_diagonal_src V veqb vzero vadd x offset (Z.of_nat a1) (Z.of_nat a2) = Raise ValueError.
+    coo_diagonal_core V veqb vzero vadd diagonal_flags x offset (Z.of_nat a1) (Z.of_nat a2) = Raise ValueError.
   Proof.
-    intros H1 H2 Hne. unfold coo_diagonal_src, coo_diagonal.
-    unfold site_diagonal_checks_zero_fill. cbn [andb].
+    intros H1 H2 Hne. unfold coo_diagonal_core.
     rewrite (py_index_nat _ a1 H1), (py_index_nat _ a2 H2). cbn [bind].
     rewrite diag_guard_rejects by exact Hne. reflexivity.
   Qed.
@@ -867,32 +893,40 @@ Section Statements.
       exists c. split; [exact H1|]. split; [exact H2|]. split; [exact H3|]. split; [exact H4|exact H5].
   Qed.
 
-  (* diagonal: inside the two named clauses (axes written non-negatively, equal extents) the result is
-     np.diagonal's for EVERY offset and every fill value *)
+  Lemma np_norm_axis_lt axis n k : np_norm_axis axis n = Some k -> Z.of_nat k < n.
+  Proof.
+    unfold np_norm_axis. destruct (Z.leb_spec (- n) axis); [|discriminate].
+    destruct (Z.ltb_spec axis n); [|discriminate]. cbn. intros E. inversion E. destruct (Z.ltb_spec axis 0); lia.
+  Qed.
+
+  (* diagonal: for equal extents of the two axes the result is np.diagonal's for EVERY offset, every fill
+     value and every spelling (negative included) of two different axes *)
   Lemma diagonal_den_partial_proof (x : coo V) (offset axis1 axis2 : Z) (a1 a2 : nat) :
     cwf V x ->
     np_norm_axis axis1 (ndim_of V x) = Some a1 -> np_norm_axis axis2 (ndim_of V x) = Some a2 -> a1 <> a2 ->
-    diagonal_negative_axis axis1 axis2 = true ->
-    diagonal_nonsquare (c_shape x) axis1 axis2 = true ->
+    diagonal_nonsquare (c_shape x) a1 a2 = true ->
     exists c, coo_diagonal_src V veqb vzero vadd x offset axis1 axis2 = Ok c
       /\ extract_result c x (np_diagonal offset a1 a2 (darr_of_coo x)).
   Proof.
-    intros Hwf Hn1 Hn2 Hne Hneg Hsq.
-    unfold diagonal_negative_axis in Hneg. apply andb_true_iff in Hneg. destruct Hneg as [Hp1 Hp2].
-    apply Z.leb_le in Hp1, Hp2.
-    unfold np_norm_axis, ndim_of in Hn1, Hn2.
-    destruct ((- Z.of_nat (length (c_shape x)) <=? axis1) && (axis1 <? Z.of_nat (length (c_shape x)))) eqn:E1; [|discriminate].
-    destruct ((- Z.of_nat (length (c_shape x)) <=? axis2) && (axis2 <? Z.of_nat (length (c_shape x)))) eqn:E2; [|discriminate].
-    apply andb_true_iff in E1, E2. destruct E1 as [_ E1], E2 as [_ E2]. apply Z.ltb_lt in E1, E2.
-    destruct (Z.ltb_spec axis1 0); [lia|]. destruct (Z.ltb_spec axis2 0); [lia|].
-    inversion Hn1; subst a1. inversion Hn2; subst a2. clear Hn1 Hn2.
-    assert (Ea1 : axis1 = Z.of_nat (Z.to_nat axis1)) by lia.
-    assert (Ea2 : axis2 = Z.of_nat (Z.to_nat axis2)) by lia.
-    unfold diagonal_nonsquare in Hsq. apply Z.eqb_eq in Hsq. rewrite Ea1, Ea2, !py_nth_nat in Hsq.
-    rewrite Ea1, Ea2, !Nat2Z.id.
-    destruct (diagonal_src_correct V veqb vzero vadd x offset (Z.to_nat axis1) (Z.to_nat axis2) Hwf Hne
-                ltac:(lia) ltac:(lia) Hsq) as [c [H1 [H2 [H3 [H4 H5]]]]].
+    intros Hwf Hn1 Hn2 Hne Hsq.
+    rewrite (diagonal_src_unfold V veqb vzero vadd x offset axis1 axis2 a1 a2 Hn1 Hn2 Hne).
+    pose proof (np_norm_axis_lt _ _ _ Hn1) as L1. pose proof (np_norm_axis_lt _ _ _ Hn2) as L2. unfold ndim_of in L1, L2.
+    unfold diagonal_nonsquare in Hsq. apply Z.eqb_eq in Hsq.
+    destruct (diagonal_src_correct V veqb vzero vadd x offset a1 a2 Hwf Hne ltac:(lia) ltac:(lia) Hsq)
+      as [c [H1 [H2 [H3 [H4 H5]]]]].
     exists c. split; [exact H1|]. split; [exact H2|]. split; [exact H3|]. split; [exact H4|exact H5].
+  Qed.
+
+  Lemma diagonal_nonsquare_rejected_proof (x : coo V) (offset axis1 axis2 : Z) (a1 a2 : nat) :
+    np_norm_axis axis1 (ndim_of V x) = Some a1 -> np_norm_axis axis2 (ndim_of V x) = Some a2 -> a1 <> a2 ->
+    diagonal_nonsquare (c_shape x) a1 a2 = false ->
+    coo_diagonal_src V veqb vzero vadd x offset axis1 axis2 = Raise ValueError.
+  Proof.
+    intros Hn1 Hn2 Hne Hsq.
+    rewrite (diagonal_src_unfold V veqb vzero vadd x offset axis1 axis2 a1 a2 Hn1 Hn2 Hne).
+    pose proof (np_norm_axis_lt _ _ _ Hn1) as L1. pose proof (np_norm_axis_lt _ _ _ Hn2) as L2. unfold ndim_of in L1, L2.
+    unfold diagonal_nonsquare in Hsq. apply Z.eqb_neq in Hsq.
+    apply diagonal_core_nonsquare; [lia|lia|exact Hsq].
   Qed.
 
   Lemma diagonalize_den_proof (x : coo V) (axis : Z) (k : nat) :
@@ -913,30 +947,17 @@ End Statements.
 
 (* ---------------------------------------------------------------- the unrestricted diagonal statement is false of the code *)
 
-(* witnesses: (1) extents 2 and 3: the code raises ValueError where np.diagonal returns [5];
-   (2) axis2 = -1 on a 2x2 array: the code returns an array of shape (2, 2) where np.diagonal returns shape (2,) *)
+(* witness: extents 2 and 3: the code raises ValueError where np.diagonal returns [5] *)
 Theorem diagonal_den_refuted_proof :
   exists (x : coo Z) (offset axis1 axis2 : Z) (a1 a2 : nat),
     cwf Z x /\ np_norm_axis axis1 (ndim_of Z x) = Some a1 /\ np_norm_axis axis2 (ndim_of Z x) = Some a2 /\ a1 <> a2
-    /\ diagonal_negative_axis axis1 axis2 = true /\ diagonal_nonsquare (c_shape x) axis1 axis2 = false
+    /\ diagonal_nonsquare (c_shape x) a1 a2 = false
     /\ ~ (exists c, coo_diagonal_src Z Z.eqb 0 Z.add x offset axis1 axis2 = Ok c
                     /\ c_shape c = da_shape (np_diagonal offset a1 a2 (darr_of_coo x))).
 Proof.
-  exists (mkCOO [2; 3] [[0; 0]] [5] 0), 0, 0, 1, 0%nat, 1%nat.
+  exists (mkCOO [2; 3] [[0; 0]] [5] 0), 0, 0, (-1), 0%nat, 1%nat.
   split; [apply cwf_by_computation; reflexivity|]. repeat (split; [reflexivity || discriminate|]).
   intros [c [Hc _]]. vm_compute in Hc. discriminate.
-Qed.
-
-Theorem diagonal_den_refuted_negative_axis_proof :
-  exists (x : coo Z) (offset axis1 axis2 : Z) (a1 a2 : nat),
-    cwf Z x /\ np_norm_axis axis1 (ndim_of Z x) = Some a1 /\ np_norm_axis axis2 (ndim_of Z x) = Some a2 /\ a1 <> a2
-    /\ diagonal_negative_axis axis1 axis2 = false /\ diagonal_nonsquare (c_shape x) axis1 axis2 = true
-    /\ ~ (exists c, coo_diagonal_src Z Z.eqb 0 Z.add x offset axis1 axis2 = Ok c
-                    /\ c_shape c = da_shape (np_diagonal offset a1 a2 (darr_of_coo x))).
-Proof.
-  exists (mkCOO [2; 2] [[0; 0]; [1; 1]] [1; 2] 0), 0, 0, (-1), 0%nat, 1%nat.
-  split; [apply cwf_by_computation; reflexivity|]. repeat (split; [reflexivity || discriminate|]).
-  intros [c [Hc Hs]]. vm_compute in Hc. inversion Hc; subst c. vm_compute in Hs. discriminate.
 Qed.
 
 (* ================================================================ non-vacuity (V = Z) *)
@@ -951,12 +972,12 @@ Proof.
   split; vm_compute; reflexivity.
 Qed.
 
-(* a NEGATIVE offset, axes given in decreasing order, non-zero fill *)
+(* a NEGATIVE offset, axes given in decreasing order (the first one spelled -1), non-zero fill *)
 Example diagonal_nonvacuous :
   let x := mkCOO [3; 2; 3] [[0; 0; 1]; [1; 1; 2]; [2; 0; 0]] [4; 5; 6] 9 in
-  cwf Z x /\ np_norm_axis 2 (ndim_of Z x) = Some 2%nat /\ np_norm_axis 0 (ndim_of Z x) = Some 0%nat
-  /\ diagonal_negative_axis 2 0 = true /\ diagonal_nonsquare (c_shape x) 2 0 = true
-  /\ coo_diagonal_src Z Z.eqb 0 Z.add x (-1) 2 0 = Ok (mkCOO [2; 2] [[0; 0]; [1; 1]] [4; 5] 9).
+  cwf Z x /\ np_norm_axis (-1) (ndim_of Z x) = Some 2%nat /\ np_norm_axis 0 (ndim_of Z x) = Some 0%nat
+  /\ diagonal_nonsquare (c_shape x) 2 0 = true
+  /\ coo_diagonal_src Z Z.eqb 0 Z.add x (-1) (-1) 0 = Ok (mkCOO [2; 2] [[0; 0]; [1; 1]] [4; 5] 9).
 Proof.
   cbv zeta. split; [apply cwf_by_computation; reflexivity|]. repeat (split; [reflexivity|]). vm_compute. reflexivity.
 Qed.
